@@ -32,6 +32,11 @@ def run(ctx):
         N = rng.choice([1, 2, 3, 3, 4, 5, 6]) if force is None else rng.choice([3, 4, 4, 5])
         length = rng.choice([1, 2, 3, 5, 8, 12, 20, 30]) if force is None else rng.choice([5, 8, 12, 16])
         prog = CU.rand_program(rng, N, length)
+        if force is None and rng.random() < 0.05:       # a wide register: qubit indices beyond 63, gates on the top qubits
+            N = rng.choice([65, 66, 72])
+            length = min(length, 8)
+            prog = CU.wide_program(rng, N, length)
+            ctx.count('wide-register')
         klass = rng.choice(['CliffordCircuit', 'Circuit']) if force is None else force[0]
         conf = rng.choice(['plain', 'plain', 'layers', 'compiled', 'copy', 'copy-compiled', 'composed', 'composed-compiled', 'recompiled', 'recompiled', 'copy-extended', 'copy-extended', 'copy-extended-compiled']) if force is None else force[1]
         ctx.count('class=' + klass); ctx.count('conf=' + conf); ctx.count('N=%d' % N)
